@@ -66,7 +66,7 @@ func Run(r *ev.Run, replay string) {
 	if err := ev.ReadJSON(ev.Root+"/witnesses/C10.json", &wit); err != nil {
 		r.Inconclusive("witnesses/C10.json: " + err.Error())
 	}
-	n := r.N(100000, 400000)
+	n := r.N(100000, 3000000)
 	var wg sync.WaitGroup
 	for _, sg := range systems() {
 		wg.Add(1)
